@@ -45,7 +45,7 @@ def specs(tier):
     )
     s2 = kprop.KSpec(
         package="sophia_turtle", crate_dir="turtle",
-        harness_files={"turtle": [os.path.join(H, "turtle", "c03_escape.rs")]},
+        harness_files={"turtle": [os.path.join(H, "turtle", "c03_common.rs"), os.path.join(H, "turtle", "c03_escape.rs")]},
         harnesses=[Harness("c16_quoted_string_rec", unwind=8, unwindset=[(QS["c16_quoted_string_rec"][0], 2, "rec"), (r"serializer::nt::", 2, "rec")],
                            oracle_unwind=True, timeout=cap, note="4 symbolic bytes (valid UTF-8), recursion bound 2 on quoted_string")],
         jobs=2,
